@@ -17,7 +17,7 @@ RULE = ("stratified + seeded random (configuration, sample) pairs inside the doc
         "beyond, total > N t); distinct = hash of (configuration, sample)")
 REQUIRED = [f"contract:NonnegMean.{t}" for t in nn.TESTS] + ["stratum:len1", "stratum:m_to_0", "stratum:m_to_u",
                                                              "stratum:m_above_u", "stratum:m_below_0",
-                                                             "random_order_false", "stratum:nondyadic_runs", "integer_dtype_samples", "object_warmed_up_with_another_N", "object_built_with_another_u",
+                                                             "random_order_false", "stratum:nondyadic_runs", "stratum:long_sample", "integer_dtype_samples", "object_warmed_up_with_another_N", "object_built_with_another_u",
             "object_used_on_another_sample_first"]
 ASSUMPTIONS = ["samples are numpy arrays of floats in [0,u] (dyadic in the boundary strata, runs of non-representable values in the nondyadic stratum); documented exclusions: finite-N SPRT with "
                "random_order=False (raises by design), Kaplan-Markov/Wald with finite N",
@@ -102,6 +102,11 @@ def run_shard(spec, rec):
     rng = random.Random(f"c11-{spec['seed']}-{spec['shard']}")
     for i in range(spec["n"]):
         combo = nn.COMBOS[i % len(nn.COMBOS)]
+        if i % 50 == 49:
+            cfg, desc = nn.gen_long(rng, combo)
+            if nn.in_domain(cfg, nn.expand_long(desc, cfg)):
+                run_case({"cfg": cfg, "x_long": desc, "stratum": "long_sample"}, rec)
+            continue
         cfg = nn.gen_cfg(rng, combo=combo)
         st = nn.SAMPLE_STRATA[(i // len(nn.COMBOS)) % len(nn.SAMPLE_STRATA)]
         if i % 7 == 6:
@@ -113,7 +118,8 @@ def run_shard(spec, rec):
 
 
 def run_case(case, rec):
-    cfg, x = case["cfg"], [float(v) for v in case["x"]]
+    cfg = case["cfg"]
+    x = [float(v) for v in (case["x"] if "x" in case else nn.expand_long(case["x_long"], cfg))]
     st = case.get("stratum", "replay")
     N = nn.cfgN(cfg)
     mu = nn.ref_mu(x, N, cfg["t"])
